@@ -13,6 +13,7 @@ package main
 // single-call case "c20 seed k n W .. R .." (same two-pass protocol, ranks re-checked).
 //
 //   -> <res> | <res> | ...      res = r=[..] keys=.. calls=c     (returned normally)
+//                                   | CLOBBERED returned=[..] now=[..]  (a later call modified the returned slice)
 //                                   | PANIC calls=c keys=.. <msg> (panicked; c = number of getWeight calls made)
 
 import (
@@ -24,6 +25,16 @@ import (
 )
 
 type c20CbPanic struct{ index int }
+
+// c20Kept remembers the slices returned by the calls of the current sequence: a later call must
+// not modify what an earlier call returned (re-checked at the end of the sequence).
+type c20KeptResult struct {
+	call  int
+	slice []int
+	shown string
+}
+
+var c20Kept []c20KeptResult
 
 func c20OneCall(toks []string) (res string) {
 	seed := int64(atoi(toks[0]))
@@ -73,6 +84,7 @@ func c20OneCall(toks []string) (res string) {
 		}
 		return w[i]
 	})
+	c20Kept = append(c20Kept, c20KeptResult{-1, out, fmtInts(out)})
 	return fmt.Sprintf("r=%s keys=%s calls=%d", fmtInts(out), fmtKeys(keys), calls)
 }
 
@@ -80,14 +92,26 @@ func init() {
 	register("c20Q", func(toks []string) string {
 		var outs []string
 		start := 1
+		c20Kept = nil
 		for i := 1; i <= len(toks); i++ {
 			if i == len(toks) || toks[i] == "|" {
 				if i > start {
+					before := len(c20Kept)
 					outs = append(outs, c20OneCall(toks[start:i]))
+					if len(c20Kept) > before {
+						c20Kept[before].call = len(outs) - 1
+					}
 				}
 				start = i + 1
 			}
 		}
+		// the slice a call returned belongs to the caller: it must still read the same
+		for _, kr := range c20Kept {
+			if now := fmtInts(kr.slice); now != kr.shown {
+				outs[kr.call] = fmt.Sprintf("CLOBBERED returned=%s now=%s (the slice returned by this call was modified by a later call)", kr.shown, now)
+			}
+		}
+		c20Kept = nil
 		return strings.Join(outs, " | ")
 	})
 }
